@@ -246,8 +246,6 @@ Proof.
     apply CInv_mk; auto.
     + intros _. rewrite E. constructor.
     + intros _. rewrite E. constructor.
-    + intros _. split; auto.
-    + intros Hd. contradiction.
     + intros Hd. contradiction.
   - unfold close_i in H. rewrite D in H. injection H as <- <-.
     split; [exact C | split; [exists []; rewrite app_nil_r; reflexivity | reflexivity]].
